@@ -375,6 +375,12 @@ def pooled_sweep_cases(tier):
             yield {"max": mx, "min": mn, "batch": batch, "occurrences": 1 if tier == "quick" else 2}
     for mx, mn in ((1, 0), (2, 0)):
         yield {"max": mx, "min": mn, "batch": False, "restart": True, "occurrences": 1 if tier == "quick" else 2}
+    # a time-out coincidence: the next notification arrives exactly one idle period of the pool after the
+    # previous one was executed, so an idle worker's wait for work and the sender's pause end at the same
+    # instant; either of the two may go first (rotate), with one preemption at every distinct line after that
+    for mx, mn in ((1, 0), (2, 0), (2, 1)):
+        for rotate in (0, 1):
+            yield {"max": mx, "min": mn, "batch": False, "idle": True, "rotate": rotate, "occurrences": 1 if tier == "quick" else 2}
 
 
 def oracle_pooled_sweep(case):
@@ -414,10 +420,12 @@ def oracle_pooled_sweep(case):
         sched.on_quiescent = on_quiescent
 
         def main():
-            pool = tp.ThreadPool(case["max"], case["min"], logname="pool")
+            pool = tp.ThreadPool(case["max"], case["min"], timeout=5, logname="pool") if case.get("idle") else tp.ThreadPool(case["max"], case["min"], logname="pool")
             pool.start()
             disp.set_notification_pool(pool)
             for i in range(3):
+                if case.get("idle") and i:
+                    D.sleep(5)
                 ev = D.Event()
                 reached.append(ev)
                 if case["batch"]:
@@ -442,7 +450,7 @@ def oracle_pooled_sweep(case):
     infos = []
     n = 0
     want = sorted(["n%d%s" % (i, x) for i in range(3) for x in (("a", "b") if case["batch"] else ("",))])
-    for pre, (sched, log, outs, error), ch in D.single_preemption_sweep(run_once, max_points=3000, occurrences=case["occurrences"], threads=case["max"] + 1):
+    for pre, (sched, log, outs, error), ch in D.single_preemption_sweep(run_once, max_points=3000, occurrences=case["occurrences"], threads=case["max"] + 1, rotate=case.get("rotate", 0)):
         n += 1
         if error is not None:
             fail("C04/notification-executions", "a pooled notification is never executed: %s: %s (one preemption at %r)" % (type(error).__name__, error, pre))
@@ -450,9 +458,10 @@ def oracle_pooled_sweep(case):
             fail("C04/notification-answered", "pooled notification answered %r" % (outs,))
         if sorted(log) != want:
             fail("C04/notification-executions", "pooled notifications executed as %r, expected %r (one preemption at %r)" % (sorted(log), want, pre))
-        infos.append(Info(nt=pre is not None, classes=["pooled-sweep"], key=(case["max"], case["min"], case["batch"], pre[:2] if pre else None),
-                          sample={"pool": [case["max"], case["min"]], "batch": case["batch"], "preempt-at": list(pre) if pre else None}))
-    infos.append(Info(classes=["pooled-sweep-complete"], key=("ps", case["max"], case["min"], case["batch"], case["occurrences"]), sample={"schedules": n}))
+        infos.append(Info(nt=pre is not None, classes=["pooled-sweep"], key=(case["max"], case["min"], case["batch"], case.get("idle"), case.get("rotate"), case.get("restart"), pre[:2] if pre else None),
+                          sample={"pool": [case["max"], case["min"]], "batch": case["batch"], "idle-coincidence": bool(case.get("idle")), "preempt-at": list(pre) if pre else None}))
+    infos.append(Info(classes=["pooled-sweep-complete"] + (["pooled-sweep-timeout-coincidence"] if case.get("idle") else []),
+                      key=("ps", case["max"], case["min"], case["batch"], case.get("idle"), case.get("rotate"), case.get("restart"), case["occurrences"]), sample={"schedules": n}))
     return Info(multi=infos)
 
 
